@@ -5,12 +5,18 @@
 //   header:  conc <seed>                                     (ompl::RNG::setSeed(seed) before anything else)
 //   force <threads> <rounds> <burst>                         barrier-and-spin lost-update forcing on valid_/invalid_
 //   counters <threads> <calls> <seed>                        shared SpaceInformation: checkMotion / isValid
-//   gnat <threads> <n> <queries> <k> <seed>                  shared NearestNeighborsGNAT: nearest / nearestK / nearestR
+//   gnat <threads> <n> <queries> <k> <seed> [<reps> <small>] shared NearestNeighborsGNAT: nearest / nearestK / nearestR, every
+//                                                            answer vs sequential vs brute force; small=1: degree 4, leaves of 8
 //   rng <threads> <per>                                      concurrent RNG construction (seed stream)
 //   spaces <threads> <per> <list 0|1>                        concurrent StateSpace creation / destruction (+ StateSpace::List)
 //   solutions <adders> <readers> <per>                       addSolutionPath / getSolutions on one ProblemDefinition
 //   logging <threads> <per>                                  OMPL_INFORM + handler / level changes
-//   terminate <pollers> <polled 0|1>                         terminate() from another thread
+//   solmix <adders> <readers> <clearers> <per> <seed>        add / getSolutions / clearSolutionPaths mixed; real-time-order oracle
+//   solrace <k> <rounds>                                     directed: an add whose sort is held open (objective hook) while
+//                                                            clear + k adds run; outcome must be one of the sequential ones
+//   terminate <pollers> <form 0|1|2>                         terminate() from another thread; 0 direct, 1 periodic,
+//                                                            2 periodic with a predicate that is blocked inside its call
+//                                                            while terminate() arrives (handshake)
 //   planner <name> <threads> <budget> <perturb_permille> <resolution> <threshold> <space> <boxes> <start> <goal>
 //                                                            (doubles as u64 bit patterns; space/boxes as in planning.h)
 #include "common/planning.h"
@@ -249,11 +255,19 @@ namespace
         size_t i = 1;
         unsigned threads = needN(t, i), n = needN(t, i), q = needN(t, i), k = needN(t, i);
         uint64_t seed = needN(t, i);
+        unsigned reps = 2, small = 0;
+        if (i < t.size())
+        {
+            reps = needN(t, i);
+            small = needN(t, i);
+        }
         XorShift r(seed);
         std::vector<std::array<double, 3>> pts(n + q);
         for (auto &p : pts)
             p = {r.unit(), r.unit(), r.unit()};
-        ompl::NearestNeighborsGNAT<int> nn;
+        // small: many internal nodes (degree 2..6, at most 8 points per leaf) so that concurrent queries keep
+        // meeting in the same internal nodes; otherwise the defaults (degree 4..12, 50 per leaf)
+        ompl::NearestNeighborsGNAT<int> nn(small ? 4 : 8, small ? 2 : 4, small ? 6 : 12, small ? 8 : 50);
         nn.setDistanceFunction([&pts](const int &a, const int &b) {
             double s = 0;
             for (int d = 0; d < 3; ++d)
@@ -300,7 +314,7 @@ namespace
         runThreads(threads, [&](unsigned th) {
             bar.wait();
             std::vector<int> out;
-            for (unsigned rep = 0; rep < 2; ++rep)
+            for (unsigned rep = 0; rep < reps; ++rep)
                 for (unsigned jj = 0; jj < q; ++jj)
                 {
                     unsigned j = (jj + th * 7) % q;
@@ -316,7 +330,7 @@ namespace
                 }
         });
         return "gnat threads=" + std::to_string(threads) + " n=" + std::to_string(n) + " queries=" +
-               std::to_string((unsigned long)threads * q * 6) + " seq_wrong=" + std::to_string(seqWrong) +
+               std::to_string((unsigned long)threads * q * 3 * reps) + " small=" + std::to_string(small) + " seq_wrong=" + std::to_string(seqWrong) +
                " mismatches=" + std::to_string(mismatches.load());
     }
 
@@ -526,6 +540,271 @@ namespace
                " shrink=" + std::to_string(shrink.load()) + " snapshots_nonzero=" + std::to_string(snapshots.load() > 0);
     }
 
+    // ---------------------------------------------------------------- solutions with clears: real-time-order oracle
+    // Every call takes a ticket from one atomic clock when it starts and when it returns.  Whatever the linearization,
+    //  (R) a solution whose add RETURNED before some clear STARTED cannot be in the final set (ids are never re-added),
+    //  (D) a solution whose add STARTED after every clear had RETURNED must be in the final set,
+    // and the same for every snapshot a reader took (with the clears/adds that returned before the snapshot started).
+    std::string opSolMix(const std::vector<std::string> &t)
+    {
+        size_t i = 1;
+        unsigned adders = needN(t, i), readers = needN(t, i), clearers = needN(t, i), per = needN(t, i);
+        uint64_t seed = needN(t, i);
+        auto space = std::make_shared<ob::RealVectorStateSpace>(1);
+        space->setBounds(0, 1e7);
+        auto si = std::make_shared<ob::SpaceInformation>(space);
+        si->setStateValidityChecker([](const ob::State *) { return true; });
+        si->setup();
+        auto pdef = std::make_shared<ob::ProblemDefinition>(si);
+        struct Call
+        {
+            uint64_t t0, t1;
+        };
+        std::atomic<uint64_t> clock{1};
+        std::vector<std::vector<ob::PathPtr>> paths(adders);
+        for (unsigned a = 0; a < adders; ++a)
+            for (unsigned c = 0; c < per; ++c)
+            {
+                auto p = std::make_shared<og::PathGeometric>(si);
+                ob::State *s0 = si->allocState(), *s1 = si->allocState();
+                s0->as<ob::RealVectorStateSpace::StateType>()->values[0] = 0;
+                s1->as<ob::RealVectorStateSpace::StateType>()->values[0] = 1.0 + a + (double)adders * c;
+                p->append(s0);
+                p->append(s1);
+                si->freeState(s0);
+                si->freeState(s1);
+                paths[a].push_back(p);
+            }
+        std::vector<std::vector<Call>> addLog(adders, std::vector<Call>(per)), clearLog(clearers);
+        struct Snap
+        {
+            uint64_t t0, t1;
+            std::vector<double> ids;
+        };
+        std::vector<std::vector<Snap>> snaps(readers);
+        std::atomic<bool> done{false};
+        std::atomic<unsigned long> unsorted{0};
+        SpinBarrier bar(adders + readers + clearers);
+        std::vector<std::thread> th;
+        for (unsigned a = 0; a < adders; ++a)
+            th.emplace_back([&, a] {
+                XorShift r(seed * 131 + a);
+                bar.wait();
+                for (unsigned c = 0; c < per; ++c)
+                {
+                    double len = 1.0 + a + (double)adders * c;
+                    addLog[a][c].t0 = clock.fetch_add(1);
+                    pdef->addSolutionPath(paths[a][c], c % 3 == 2, c % 3 == 2 ? len : 0.0, "t" + std::to_string(a));
+                    addLog[a][c].t1 = clock.fetch_add(1);
+                    if (r.next() % 8 == 0)
+                        sched_yield();
+                }
+            });
+        for (unsigned cidx = 0; cidx < clearers; ++cidx)
+            th.emplace_back([&, cidx] {
+                XorShift r(seed * 977 + cidx);
+                bar.wait();
+                // a handful of clears spread over the run of the adders
+                for (unsigned c = 0; c < 6 && !done.load(); ++c)
+                {
+                    for (unsigned w = 0, n = 50 + r.next() % 400; w < n; ++w)
+                        sched_yield();
+                    Call k;
+                    k.t0 = clock.fetch_add(1);
+                    pdef->clearSolutionPaths();
+                    k.t1 = clock.fetch_add(1);
+                    clearLog[cidx].push_back(k);
+                }
+            });
+        for (unsigned rd = 0; rd < readers; ++rd)
+            th.emplace_back([&, rd] {
+                bar.wait();
+                while (!done.load())
+                {
+                    Snap s;
+                    s.t0 = clock.fetch_add(1);
+                    auto v = pdef->getSolutions();
+                    s.t1 = clock.fetch_add(1);
+                    if (!sortedSnapshot(v))
+                        ++unsorted;
+                    if (snaps[rd].size() < 300)
+                    {
+                        for (auto &x : v)
+                            s.ids.push_back(x.length_);
+                        snaps[rd].push_back(std::move(s));
+                    }
+                    (void)pdef->getSolutionCount();
+                    (void)pdef->hasExactSolution();
+                }
+            });
+        for (unsigned a = 0; a < adders; ++a)
+            th[a].join();
+        done = true;
+        for (unsigned k = adders; k < th.size(); ++k)
+            th[k].join();
+        auto fin = pdef->getSolutions();
+        std::map<double, Call> addOf;
+        for (unsigned a = 0; a < adders; ++a)
+            for (unsigned c = 0; c < per; ++c)
+                addOf[1.0 + a + (double)adders * c] = addLog[a][c];
+        std::vector<Call> clears;
+        for (auto &v : clearLog)
+            clears.insert(clears.end(), v.begin(), v.end());
+        unsigned long resurrected = 0, dropped = 0, unknown = 0, dup = 0, snapResurrected = 0, snapDropped = 0;
+        // observation = a getSolutions() call that started at ticket obsStart and returned at obsEnd
+        auto judge = [&](const std::vector<double> &ids, uint64_t obsStart, uint64_t obsEnd, unsigned long &res,
+                         unsigned long &drp) {
+            std::set<double> have(ids.begin(), ids.end());
+            if (have.size() != ids.size())
+                ++dup;
+            for (double id : have)
+            {
+                auto it = addOf.find(id);
+                if (it == addOf.end())
+                {
+                    ++unknown;
+                    continue;
+                }
+                // (R) its add returned before a clear started, and that clear returned before the observation started
+                for (auto &c : clears)
+                    if (c.t1 < obsStart && it->second.t1 < c.t0)
+                    {
+                        ++res;
+                        break;
+                    }
+            }
+            // (D) its add returned before the observation started and no clear can be ordered between the two:
+            // every clear either returned before the add started or started after the observation returned
+            for (auto &kv : addOf)
+                if (kv.second.t1 < obsStart && !have.count(kv.first))
+                {
+                    bool excused = false;
+                    for (auto &c : clears)
+                        if (!(c.t1 < kv.second.t0 || c.t0 > obsEnd))
+                            excused = true;
+                    if (!excused)
+                        ++drp;
+                }
+        };
+        std::vector<double> finIds;
+        for (auto &s : fin)
+            finIds.push_back(s.length_);
+        judge(finIds, ~0ull, ~0ull, resurrected, dropped);
+        unsigned long nsnaps = 0;
+        for (auto &v : snaps)
+            for (auto &s : v)
+            {
+                ++nsnaps;
+                judge(s.ids, s.t0, s.t1, snapResurrected, snapDropped);
+            }
+        return "solmix adders=" + std::to_string(adders) + " readers=" + std::to_string(readers) + " clearers=" +
+               std::to_string(clearers) + " adds=" + std::to_string((unsigned long)adders * per) + " clears=" +
+               std::to_string(clears.size()) + " final=" + std::to_string(fin.size()) + " resurrected=" +
+               std::to_string(resurrected) + " dropped=" + std::to_string(dropped) + " unknown=" + std::to_string(unknown) +
+               " duplicates=" + std::to_string(dup) + " sorted_ok=" + std::to_string(sortedSnapshot(fin)) +
+               " snapshots=" + std::to_string(nsnaps) + " snapshots_unsorted=" + std::to_string(unsorted.load()) +
+               " snap_resurrected=" + std::to_string(snapResurrected) + " snap_dropped=" + std::to_string(snapDropped);
+    }
+
+    // ---------------------------------------------------------------- directed add / clear race
+    // The solutions carry an objective whose isCostBetterThan can hold one particular thread inside the comparison —
+    // i.e. inside the std::sort of ITS add — until the main thread has run clearSolutionPaths() and k further adds
+    // (bounded wait: when add sorts under the lock, as it should, the main thread simply blocks until the wait runs out).
+    class HookObjective : public ob::PathLengthOptimizationObjective
+    {
+    public:
+        using ob::PathLengthOptimizationObjective::PathLengthOptimizationObjective;
+        bool isCostBetterThan(ob::Cost c1, ob::Cost c2) const override
+        {
+            if (armed.load() && holdThisThread() && !held.exchange(true))
+            {
+                inSort = true;
+                auto until = std::chrono::steady_clock::now() + std::chrono::milliseconds(150);
+                while (!release.load() && std::chrono::steady_clock::now() < until)
+                    sched_yield();
+                if (!release.load())
+                    ++timeouts;
+            }
+            return c1.value() < c2.value();
+        }
+        static bool &holdThisThread()
+        {
+            thread_local bool h = false;
+            return h;
+        }
+        mutable std::atomic<bool> armed{false}, held{false}, inSort{false}, release{false};
+        mutable std::atomic<unsigned> timeouts{0};
+    };
+
+    std::string opSolRace(const std::vector<std::string> &t)
+    {
+        size_t i = 1;
+        unsigned k = needN(t, i), rounds = needN(t, i);
+        auto space = std::make_shared<ob::RealVectorStateSpace>(1);
+        space->setBounds(0, 1e7);
+        auto si = std::make_shared<ob::SpaceInformation>(space);
+        si->setStateValidityChecker([](const ob::State *) { return true; });
+        si->setup();
+        unsigned long bad = 0, held = 0, timeouts = 0;
+        std::string firstBad;
+        for (unsigned round = 0; round < rounds; ++round)
+        {
+            auto pdef = std::make_shared<ob::ProblemDefinition>(si);
+            auto opt = std::make_shared<HookObjective>(si);
+            pdef->setOptimizationObjective(opt);
+            auto mk = [&](double len) {
+                auto p = std::make_shared<og::PathGeometric>(si);
+                ob::State *s0 = si->allocState(), *s1 = si->allocState();
+                s0->as<ob::RealVectorStateSpace::StateType>()->values[0] = 0;
+                s1->as<ob::RealVectorStateSpace::StateType>()->values[0] = len;
+                p->append(s0);
+                p->append(s1);
+                si->freeState(s0);
+                si->freeState(s1);
+                ob::PlannerSolution sol(p);
+                sol.setOptimized(opt, ob::Cost(len), false);
+                return sol;
+            };
+            // old solutions 1..k, the raced one k+1 (x), the new ones 101..100+k
+            for (unsigned j = 1; j <= k; ++j)
+                pdef->addSolutionPath(mk(j));
+            opt->armed = true;
+            std::thread A([&] {
+                HookObjective::holdThisThread() = true;
+                pdef->addSolutionPath(mk(k + 1));
+                HookObjective::holdThisThread() = false;
+            });
+            auto until = std::chrono::steady_clock::now() + std::chrono::seconds(10);
+            while (!opt->inSort.load() && std::chrono::steady_clock::now() < until)
+                sched_yield();
+            held += opt->inSort.load();
+            pdef->clearSolutionPaths();
+            for (unsigned j = 1; j <= k; ++j)
+                pdef->addSolutionPath(mk(100 + j));
+            opt->release = true;
+            A.join();
+            timeouts += opt->timeouts.load();
+            // sequential outcomes: {101..100+k} with or without x
+            std::multiset<double> have, want, wantX;
+            for (auto &s : pdef->getSolutions())
+                have.insert(s.length_);
+            for (unsigned j = 1; j <= k; ++j)
+                want.insert(100 + j);
+            wantX = want;
+            wantX.insert(k + 1);
+            if (have != want && have != wantX)
+            {
+                ++bad;
+                if (firstBad.empty())
+                    for (double d : have)
+                        firstBad += (firstBad.empty() ? "" : ",") + std::to_string((long)d);
+            }
+        }
+        return "solrace k=" + std::to_string(k) + " rounds=" + std::to_string(rounds) + " held=" + std::to_string(held) +
+               " lock_waits=" + std::to_string(timeouts) + " bad=" + std::to_string(bad) +
+               " first_bad=" + (firstBad.empty() ? std::string("-") : firstBad);
+    }
+
     // ---------------------------------------------------------------- logging
     // The handler keeps a PLAIN counter on purpose: ompl::msg::log serialises handler calls under its own mutex, so
     // the count must still be exact (and TSan must stay silent) — if that lock goes, this is where it shows.
@@ -585,26 +864,37 @@ namespace
     std::string opTerminate(const std::vector<std::string> &t)
     {
         size_t i = 1;
-        unsigned pollers = needN(t, i), polled = needN(t, i);
+        unsigned pollers = needN(t, i), form = needN(t, i);
         std::atomic<unsigned long> fnCalls{0};
-        auto fn = [&fnCalls] {
+        // form 2: once armed, the predicate announces that it is inside its call and stays there until the main
+        // thread has called terminate() (bounded wait), then answers false — the answer the periodic evaluation
+        // thread is about to cache is older than the termination request
+        std::atomic<bool> armed{false}, inFn{false}, released{false};
+        auto fn = [&] {
             ++fnCalls;
+            if (form == 2 && armed.load() && !released.load())
+            {
+                inFn = true;
+                auto until = std::chrono::steady_clock::now() + std::chrono::seconds(5);
+                while (!released.load() && std::chrono::steady_clock::now() < until)
+                    sched_yield();
+            }
             return false;
         };
         std::unique_ptr<ob::PlannerTerminationCondition> ptc(
-            polled ? new ob::PlannerTerminationCondition(fn, 0.0005) : new ob::PlannerTerminationCondition(fn));
+            form ? new ob::PlannerTerminationCondition(fn, 0.0005) : new ob::PlannerTerminationCondition(fn));
         std::vector<std::atomic<unsigned long>> polls(pollers);
         for (auto &p : polls)
             p = 0;
         std::atomic<unsigned> seen{0}, seenBefore{0};
-        std::atomic<bool> requested{false};
+        std::atomic<bool> requested{false}, giveUp{false};
         auto deadline = std::chrono::steady_clock::now() + std::chrono::seconds(60);  // hang guard only
         SpinBarrier bar(pollers + 1);
         std::vector<std::thread> th;
         for (unsigned p = 0; p < pollers; ++p)
             th.emplace_back([&, p] {
                 bar.wait();
-                for (;;)
+                while (!giveUp.load())
                 {
                     bool before = requested.load();
                     if (ptc->eval())
@@ -614,8 +904,7 @@ namespace
                             ++seenBefore;  // true although nobody asked: a phantom termination
                         break;
                     }
-                    if ((++polls[p] & 0xfff) == 0 && std::chrono::steady_clock::now() > deadline)
-                        break;
+                    ++polls[p];
                 }
             });
         bar.wait();
@@ -623,15 +912,31 @@ namespace
         for (unsigned p = 0; p < pollers; ++p)
             while (polls[p].load() < 2000 && std::chrono::steady_clock::now() < deadline)
                 sched_yield();
+        unsigned handshake = 0;
+        if (form == 2)
+        {
+            armed = true;
+            while (!inFn.load() && std::chrono::steady_clock::now() < deadline)
+                sched_yield();
+            handshake = inFn.load();
+        }
         requested = true;
         ptc->terminate();
+        released = true;  // the blocked predicate now returns its (stale) false
+        // every poller must see the request; they get 5 s (the hang guard of a run that has already failed)
+        auto until = std::chrono::steady_clock::now() + std::chrono::seconds(5);
+        while (seen.load() < pollers && std::chrono::steady_clock::now() < until)
+            sched_yield();
+        // the stale answer must not undo the request later either
+        std::this_thread::sleep_for(std::chrono::milliseconds(form == 2 ? 5 : 0));
+        bool sticky = ptc->eval() && (*ptc)();
+        giveUp = true;
         for (auto &x : th)
             x.join();
-        bool sticky = ptc->eval() && (*ptc)();
-        ptc.reset();  // joins the evaluation thread of the polled form
-        return "terminate pollers=" + std::to_string(pollers) + " polled=" + std::to_string(polled) +
-               " seen=" + std::to_string(seen.load()) + " phantom=" + std::to_string(seenBefore.load()) +
-               " sticky=" + std::to_string(sticky);
+        ptc.reset();  // joins the evaluation thread of the periodic form
+        return "terminate pollers=" + std::to_string(pollers) + " polled=" + std::to_string(form) +
+               " handshake=" + std::to_string(handshake) + " seen=" + std::to_string(seen.load()) +
+               " phantom=" + std::to_string(seenBefore.load()) + " sticky=" + std::to_string(sticky);
     }
 
     // ---------------------------------------------------------------- multi-threaded planners
@@ -810,6 +1115,10 @@ int main()
                 out = opSpaces(t);
             else if (t[0] == "solutions")
                 out = opSolutions(t);
+            else if (t[0] == "solmix")
+                out = opSolMix(t);
+            else if (t[0] == "solrace")
+                out = opSolRace(t);
             else if (t[0] == "logging")
                 out = opLogging(t);
             else if (t[0] == "terminate")
